@@ -34,7 +34,8 @@ KNOWN_ROW = "mixed-element-row-empty"
 def setups(tier):
     out = [S22.MixedSetup("elem", [(), (2,)]),
            S22.MixedSetup("elem", [(), (2,), ()]),
-           S22.MixedSetup("mfs", [(2,), (), ()])]
+           S22.MixedSetup("mfs", [(2,), (), ()]),
+           S22.MixedSetup("elem", ["sym2", (2,), ()])]
     if tier == "thorough":
         out += [S22.MixedSetup("elem", [(2,), ()]),
                 S22.MixedSetup("elem", [(2,), (), ()]),
@@ -45,7 +46,9 @@ def setups(tier):
                 S22.MixedSetup("elem", [(2,), (), (2,), (2,)]),
                 S22.MixedSetup("mfs", [(), (2,), ()]),
                 S22.MixedSetup("mfs", [(2,), (), (), (2,)]),
-                S22.MixedSetup("mfs", [(2, 2), (2,)])]
+                S22.MixedSetup("mfs", [(2, 2), (2,)]),
+                S22.MixedSetup("elem", [(), "sym2", (2,)]),
+                S22.MixedSetup("mfs", ["sym2", ()])]
     return out
 
 
